@@ -94,6 +94,10 @@ type Scenario struct {
 	Steps       []Step `json:"steps"`
 	// ServerName: the cache is created with cache.WithServerName (exported as meta/serverName of every target).
 	ServerName string `json:"server_name,omitempty"`
+	// Feeder: how the callers treat the containers of a notification after the call (feeder.go): "" fresh objects
+	// every time, "batch" the update/delete lists live in one re-used backing array per target, "scribble"
+	// everything the caller still owns is re-used for the next notification and overwritten right after the call.
+	Feeder string `json:"feeder,omitempty"`
 }
 
 func targetName(i int) string { return fmt.Sprintf("t%d", i) }
@@ -121,6 +125,9 @@ var profiles = map[string]profile{
 	"C15": {minTargets: 1, maxTargets: 2, threshold: true, maxSteps: 40, small: true,
 		weights: map[string]int{"noti": 16, "reset": 1, "sync": 2, "connect": 4, "connecterr": 4, "updmeta": 3, "updsize": 1, "add": 1}},
 }
+
+// feederStyles: the caller-side treatment of containers after a call, one per scenario (feeder.go).
+var feederStyles = []string{feedFresh, feedFresh, feedBatch, feedBatch, feedScribble, feedScribble, feedScribble}
 
 var kindOrder = []string{"noti", "reset", "remove", "add", "sync", "connect", "connecterr", "updmeta", "updsize"}
 
@@ -385,6 +392,7 @@ func genScenario(prop string) func(t *rapid.T) *Scenario {
 		if (prop == "C02" || prop == "C03") && rapid.IntRange(0, 199).Draw(t, "fan-out") == 123 {
 			useOddNames, useLegacyVals = false, false
 			sc := &Scenario{Targets: rapid.IntRange(pr.minTargets, pr.maxTargets).Draw(t, "targets"), EventDriven: rapid.Bool().Draw(t, "eventdriven")}
+			sc.Feeder = rapid.SampledFrom(feederStyles).Draw(t, "feeder")
 			sc.Steps = genFanout(t, pr, sc.Targets)
 			return sc
 		}
@@ -393,6 +401,7 @@ func genScenario(prop string) func(t *rapid.T) *Scenario {
 		useStarNames = (prop == "C02" || prop == "C03") && rapid.IntRange(0, 11).Draw(t, "star-names") == 7
 		sc := &Scenario{Targets: rapid.IntRange(pr.minTargets, pr.maxTargets).Draw(t, "targets")}
 		sc.EventDriven = rapid.IntRange(0, 3).Draw(t, "eventdriven") > 0
+		sc.Feeder = rapid.SampledFrom(feederStyles).Draw(t, "feeder")
 		if pr.threshold && rapid.IntRange(0, 2).Draw(t, "usethr") == 0 {
 			// small thresholds around which the timestamps are generated, and thresholds that mean "never reject"
 			// (time.Duration(math.MaxInt64), centuries): every sum of a threshold and a timestamp wraps
